@@ -195,6 +195,31 @@ class _Probe:
         pass
 
 
+def driver_preclaims(F, graph_route):
+    """does the DRIVER of the route take the seed out of the availability set itself, right before it has the node built?  (On the pinned
+    tree the growth function does that; the chain tables then start with the seed already claimed.)"""
+    cache = getattr(F, "_driver_preclaims", None)
+    if cache is None:
+        cache = F._driver_preclaims = {}
+    if graph_route in cache:
+        return cache[graph_route]
+    res = False
+    try:
+        step, ext, builder, body = find_builder(F, graph_route)
+        h = DriverOracles((), builder["path"], graph_route, step["path"])
+        it = Interp(F, False, h)
+        if graph_route:
+            it.call_body(body, [mkbool(False), Ref(Cell(Opaque("S", {"spec"}))), Opaque("DebruijnGraph", {"old-graph"}), Adt("std::option::Option", 0, [])])
+        else:
+            it.call_body(body, [mkbool(False), Ref(Cell(Opaque("S", {"spec"}))), Ref(Cell(Opaque("index", {"index"})))])
+        builds = [e for e in h.events if e[0] == "build"]
+        res = bool(builds) and getattr(h, "preclaims", 0) == len(builds)
+    except Exception:
+        res = False
+    cache[graph_route] = res
+    return res
+
+
 def chain_status(F, graph_route):
     cache = getattr(F, "_chain_status", None)
     if cache is None:
@@ -747,12 +772,14 @@ class ChainOracles(WalkOracles):
     interpreted, and only their questions to the graph / the availability set / the caller's spec are answered from the model — so whatever
     the three private functions pass to each other, the result is judged against the line."""
 
-    def __init__(self, script, stranded):
+    def __init__(self, script, stranded, preclaimed=False):
         WalkOracles.__init__(self, script)
         self.stranded = stranded
         self.joins = []
         self.seq_path = None
         self.line = None
+        if preclaimed:
+            self.removed.append("seed")       # the driver has claimed the seed before it calls the builder
 
     def setup(self):
         if self.line is None:
@@ -953,7 +980,7 @@ def graph_chain_table(F, rep, rule):
     rows = 0
     for stranded in (False, True):
         def mk(script, stranded=stranded):
-            return ChainOracles(script, stranded)
+            return ChainOracles(script, stranded, preclaimed=driver_preclaims(F, True))
 
         def run(h, stranded=stranded):
             it = Interp(F, False, h)
@@ -1099,7 +1126,7 @@ def kmer_chain_table(F, rep, rule):
     K = 3
     for stranded in (False, True):
         def mk(script, stranded=stranded):
-            h = KmerChainOracles(script, stranded)
+            h = KmerChainOracles(script, stranded, preclaimed=driver_preclaims(F, False))
             h.K = K
             return h
 
@@ -1258,6 +1285,11 @@ class DriverOracles(WalkOracles):
                 raise Undecided("the worker struct carries no availability set")
             avail = comp.fields[fi].s
             strand = [f for f in comp.fields if isinstance(f, Int) and f.kind == "bool"]
+            if self.events and self.events[-1] == ("remove", i) and i not in avail:
+                # the driver itself claims the seed right before it has the node built (on the pinned tree the growth function does):
+                # for what follows the seed counts as available at its turn
+                avail = set(avail) | {i}
+                self.preclaims = getattr(self, "preclaims", 0) + 1
             self.events.append(("build", i, i in avail, strand[0].val if strand and strand[0].is_conc() else None, frozenset(avail)))
             # the walk consumes the seed and a scripted subset of the other still-available ids
             others = sorted(avail - {i})
